@@ -113,12 +113,13 @@ type runner struct {
 
 	faultMu sync.Mutex
 	opCount map[string]int
+	txKeys  map[int][]string // keys written by each transaction (for commit faults with a key)
 	armed   bool
 	gates   []*storeGate
 }
 
 // storeGate holds the next store operation of a kind until the driver releases it.
-type storeGate struct {
+type storeGate struct { // (see also runner.txKeys: keys written by each open transaction)
 	op, key string
 	held    chan struct{} // closed when an operation is being held
 	release chan string   // error text ("" = succeed)
@@ -313,11 +314,26 @@ func (r *runner) storeHook(op store.Op) error {
 		}
 	}
 	defer r.faultMu.Unlock()
+	if op.Kind == "set" && op.Tx != 0 {
+		if r.txKeys == nil {
+			r.txKeys = map[int][]string{}
+		}
+		r.txKeys[op.Tx] = append(r.txKeys[op.Tx], op.Key)
+	}
 	for _, f := range r.sc.Faults {
 		if f.Op != op.Kind {
 			continue
 		}
-		if f.Key != "" && !strings.HasPrefix(op.Key, f.Key) {
+		if f.Key != "" && op.Kind == "commit" {
+			// a commit fault with a key: the commit of a transaction that wrote such a key
+			hit := false
+			for _, k := range r.txKeys[op.Tx] {
+				hit = hit || strings.HasPrefix(k, f.Key)
+			}
+			if !hit {
+				continue
+			}
+		} else if f.Key != "" && !strings.HasPrefix(op.Key, f.Key) {
 			continue
 		}
 		if f.AfterEmit && !r.world.Emitted() {
